@@ -231,27 +231,53 @@ func (cw *concWorld) perform(t, j, oi int) {
 	cw.outs[t] = append(cw.outs[t], e)
 }
 
-// serialOutcomes runs the threads one after another in every permutation (no scheduler)
-// and returns, per thread, the set of outcome vectors it can have.
-func serialOutcomes(c ConcCase) []map[string]bool {
+// serialOutcomes runs every *interleaving of the threads' operations* (each thread's
+// operations in program order, one operation at a time, no scheduler) and returns, per
+// thread and operation, the set of outcomes that operation can have sequentially. The
+// property speaks of each concurrent *call*: "an outcome that a sequential execution of
+// the same call can return" — not of whole threads.
+func serialOutcomes(c ConcCase) [][]map[string]bool {
 	k := len(c.Threads)
-	acc := make([]map[string]bool, k)
-	for i := range acc {
-		acc[i] = map[string]bool{}
+	acc := make([][]map[string]bool, k)
+	for t := range acc {
+		acc[t] = make([]map[string]bool, len(c.Threads[t]))
+		for j := range acc[t] {
+			acc[t][j] = map[string]bool{}
+		}
 	}
-	for _, perm := range allPerms(k) {
-		curT := 0
-		cw := newConcWorld(c, false, func() int { return curT })
-		for _, t := range perm {
-			curT = t
-			for j, oi := range c.Threads[t] {
-				cw.perform(t, j, oi)
+	var order []int
+	pos := make([]int, k)
+	var rec func()
+	rec = func() {
+		done := true
+		for t := 0; t < k; t++ {
+			if pos[t] < len(c.Threads[t]) {
+				done = false
+				pos[t]++
+				order = append(order, t)
+				rec()
+				order = order[:len(order)-1]
+				pos[t]--
 			}
 		}
+		if !done {
+			return
+		}
+		curT := 0
+		cw := newConcWorld(c, false, func() int { return curT })
+		next := make([]int, k)
+		for _, t := range order {
+			curT = t
+			cw.perform(t, next[t], c.Threads[t][next[t]])
+			next[t]++
+		}
 		for t := 0; t < k; t++ {
-			acc[t][strings.Join(cw.outs[t], " ;; ")] = true
+			for j, e := range cw.outs[t] {
+				acc[t][j][e] = true
+			}
 		}
 	}
+	rec()
 	return acc
 }
 
@@ -387,7 +413,7 @@ func exploreSched(c ConcCase, bound, cap int, check func(s *verifrt.Sched, cw *c
 }
 
 // checkConc is the per-execution oracle.
-func checkConc(prop string, c ConcCase, serial []map[string]bool) func(s *verifrt.Sched, cw *concWorld, sched []int, hot map[string]bool) []Finding {
+func checkConc(prop string, c ConcCase, serial [][]map[string]bool) func(s *verifrt.Sched, cw *concWorld, sched []int, hot map[string]bool) []Finding {
 	return func(s *verifrt.Sched, cw *concWorld, sched []int, hot map[string]bool) (fs []Finding) {
 		add := func(clause, m string, a ...interface{}) { fs = append(fs, Finding{prop, clause, fmt.Sprintf(m, a...)}) }
 		if s.Deadlock {
@@ -416,18 +442,19 @@ func checkConc(prop string, c ConcCase, serial []map[string]bool) func(s *verifr
 			return
 		}
 		for t := range cw.outs {
-			got := strings.Join(cw.outs[t], " ;; ")
-			if strings.Contains(got, "PANIC") {
-				add("panic", "thread %d: %s", t, got)
-				continue
-			}
-			if !serial[t][got] {
-				var opts []string
-				for k := range serial[t] {
-					opts = append(opts, k)
+			for j, got := range cw.outs[t] {
+				if strings.Contains(got, "PANIC") {
+					add("panic", "thread %d: %s", t, got)
+					continue
 				}
-				sort.Strings(opts)
-				add("not-serial", "thread %d observed %q, which it observes in no serial order of the threads (serial: %q)", t, got, opts)
+				if j < len(serial[t]) && !serial[t][j][got] {
+					var opts []string
+					for k := range serial[t][j] {
+						opts = append(opts, k)
+					}
+					sort.Strings(opts)
+					add("not-serial", "thread %d operation %d observed %q, which it observes in no sequential interleaving of the operations (sequential: %q)", t, j, got, opts)
+				}
 			}
 		}
 		if c.Sub == "once" && cw.w.Counts["o"] > 1 {
